@@ -25,6 +25,7 @@ BOUNDS = [
     "CylinderSegment inside/outside obligation: r2,h in [1e-3,1e3], r1 = 0 or r1 >= 1e-3 (absolute slabs of 1e-14 are C12's subject)",
     "Tetrahedron: vertices from a fixed rational list (both chiralities, a sliver), observer and polarization symbolic "
     "(12 symbolic vertex coordinates: the inverse-matrix inside test did not finish in 240 s)",
+    "CylinderSegment azimuthal membership: 5 concrete sections x 6 concrete observer directions (>= 10 degrees from every section face), radius / z / r1 / r2 / h / polarization symbolic",
     "Polyline: segment endpoints from a fixed rational list (axis-aligned, oblique with rational length, degenerate), observer and current symbolic",
     "inside/outside: geometric definition with a relative margin 1e-9 of the body size around the surface",
 ]
@@ -70,6 +71,9 @@ def cases(tier, seed):
                 continue
             out.append({"id": f"{name}-n{n}", "wrapper": name, "rows": n, "weight": 5 if n == 2 else 1})
     out.append({"id": "attr-setters", "wrapper": None, "weight": 1})
+    # CylinderSegment: azimuthal membership decided geometrically for concrete section angles and observer directions (radius, z, dims symbolic)
+    for sec in SECTIONS:
+        out.append({"id": f"cylseg-section{sec[0]}_{sec[1]}", "wrapper": "cylseg-sections", "section": list(sec), "weight": 4})
     return out
 
 
@@ -129,10 +133,90 @@ def inside_outside(name, A, i):
     return None
 
 
+SECTIONS = [(0, 90), (-270, -180), (-360, -240), (300, 360), (-120, 200)]
+DIRECTIONS = [20, 70, 135, 200, 250, 340]  # observer azimuth in degrees; at least 10 degrees away from every section face above
+
+
+def _in_section(alpha, sec):
+    a = (alpha - sec[0]) % 360
+    return 0 < a < (sec[1] - sec[0])
+
+
+def _sections_case(C):
+    w = WRAPPERS["cylseg"]
+    apply_cuts(w.cuts)
+    fn = w.fn()
+    mod = importlib.import_module(w.module)
+    MU0 = toz(mod.MU0)
+    sec = C.case["section"]
+    r1, r2, h, rho, zz = sym("r1"), sym("r2"), sym("h"), sym("rho"), sym("z")
+    pol = symarr("polarization", (1, 3))
+    lo, hi = z3.RealVal("1/1000"), z3.RealVal(1000)
+    base_pre = [r1.z >= 0, r1.z < r2.z, h.z > 0, rho.z >= lo, r2.z >= lo, r2.z <= hi, h.z >= lo, h.z <= hi, z3.Or(r1.z == 0, r1.z >= lo)]
+    dim = oarr(np.array([[r1, r2, h, S(toz(float(sec[0]))), S(toz(float(sec[1])))]], dtype=object))
+    inputs = [r1, r2, h, rho, zz] + list(pol.ravel())
+    for alpha in DIRECTIONS:
+        ar = float(np.deg2rad(alpha))
+        ar = ar if ar <= np.pi else ar - 2 * np.pi  # arctan2 range
+        ca, sa = float(np.cos(ar)), float(np.sin(ar))
+        obs = oarr(np.array([[rho * ca, rho * sa, zz]], dtype=object))
+
+        def hook(fname, rel, ar=ar):
+            # atan2(rho*sin a, rho*cos a) = a for rho > 0 (the observer direction is concrete)
+            return [v == toz(ar) for v, _ in rel] if fname == "atan2" else []
+
+        CTX.lemma_hook = hook
+        CTX.pre = list(base_pre)
+        inside_phi = _in_section(alpha, sec)
+
+        def run():
+            return {f: fn(field=f, observers=obs.copy(), dimension=dim.copy(), polarization=pol.copy()) for f in "BHJ"}
+
+        def on_path(p, alpha=alpha, inside_phi=inside_phi):
+            C.paths += 1
+            if p.status != "ok":
+                C.note_inconclusive(f"a{alpha}.p{C.paths}", f"aborted: {p.out}")
+                return
+            o = p.out
+            M6 = z3.RealVal("1/1000000")  # margin 1e-6 of the body size: well above close()'s absolute 1e-12 for sizes >= 1e-3
+            rad_in = z3.And(rho.z > r1.z * (1 + M6), rho.z < r2.z * (1 - M6), zabs(zz.z) < h.z / 2 * (1 - M6))
+            rad_out = z3.Or(rho.z > r2.z * (1 + M6), rho.z < r1.z * (1 - M6), zabs(zz.z) > h.z / 2 * (1 + M6))
+
+            def mk(kind):
+                def on_model(env):
+                    rr, z_ = env.get("rho", 1.0) or 1.0, env.get("z", 0.0) or 0.0
+                    return {"key": f"C02|BHJM_cylinder_segment|section|{kind}",
+                            "replay": {"kind": "section", "expect": kind, "section": sec, "alpha": alpha,
+                                       "args": {"observers": [[rr * ca, rr * sa, z_]], "dimension": [[env.get("r1", 0.0) or 0.0, env.get("r2", 1.0) or 1.0, env.get("h", 1.0) or 1.0, sec[0], sec[1]]],
+                                                "polarization": [[env.get(f"polarization_0_{k}", 0.0) or 0.0 for k in range(3)]]}}}
+
+                return on_model
+
+            Jv = [toz(o["J"][0, c]) for c in range(3)]
+            if inside_phi:
+                viol = z3.And(rad_in, z3.Or(*[Jv[c] != toz(pol[0, c]) for c in range(3)]))
+                C.oblige(f"a{alpha}.p{C.paths}.J=pol-inside-section", p.pc, viol, on_model=mk("inside"), inputs=inputs, key="C02|BHJM_cylinder_segment|section|inside",
+                         sample=f"CylinderSegment section {sec}, observer azimuth {alpha} deg (inside the section): J == polarization for r1<rho<r2, |z|<h/2, all reals")
+                viol = z3.And(rad_out, z3.Or(*[Jv[c] != 0 for c in range(3)]))
+            else:
+                viol = z3.Or(*[Jv[c] != 0 for c in range(3)])
+            C.oblige(f"a{alpha}.p{C.paths}.J=0-outside-section", p.pc, viol, on_model=mk("outside"), inputs=inputs, key="C02|BHJM_cylinder_segment|section|outside")
+            defined = [o[f][0, c].d for f in "BH" for c in range(3)]
+            bh = z3.Or(*[toz(o["B"][0, c]) != MU0 * toz(o["H"][0, c]) + Jv[c] for c in range(3)])
+            C.oblige(f"a{alpha}.p{C.paths}.B=mu0H+J", p.pc + defined, bh, on_model=mk("B=mu0H+J"), inputs=inputs, key="C02|BHJM_cylinder_segment|section|B=mu0H+J")
+
+        paths = explore(run, max_paths=60, on_path=on_path)
+        C.decisions += sum(len(p.decisions) for p in paths)
+    CTX.lemma_hook = None
+
+
 def run_case(case, info):
     C = Case(case, info)
     if case["wrapper"] is None:
         _attr_case(C)
+        return C.result()
+    if case["wrapper"] == "cylseg-sections":
+        _sections_case(C)
         return C.result()
     name = case["wrapper"]
     w = WRAPPERS[name]
@@ -378,6 +462,23 @@ def replay(spec):
             return True, f"magnet.{spec['which']} = None raised {type(e).__name__}; polarization={src.polarization} magnetization={src.magnetization}"
         bad = not (src.polarization is None and src.magnetization is None)
         return bad, f"after None: polarization={src.polarization} magnetization={src.magnetization}"
+    if kind == "section":
+        w = WRAPPERS["cylseg"]
+        args = spec["args"]
+        f = {x: np.asarray(w.call_float(x, args), dtype=float) for x in "BHJ"}
+        pol = np.asarray(args["polarization"], dtype=float)[0]
+        r1, r2, h = args["dimension"][0][:3]
+        o = args["observers"][0]
+        rho = float(np.hypot(o[0], o[1]))
+        inside = _in_section(spec["alpha"], spec["section"]) and r1 * (1 + 1e-6) < rho < r2 * (1 - 1e-6) and abs(o[2]) < h / 2 * (1 - 1e-6)
+        outside = (not _in_section(spec["alpha"], spec["section"])) or rho > r2 * (1 + 1e-6) or rho < r1 * (1 - 1e-6) or abs(o[2]) > h / 2 * (1 + 1e-6)
+        desc = f"CylinderSegment dimension {args['dimension'][0]} observer {o} (azimuth {spec['alpha']} deg): J={f['J'][0].tolist()} polarization={pol.tolist()} B={f['B'][0].tolist()}"
+        if spec["expect"] == "inside":
+            return bool(inside and not rel_close(f["J"][0], pol, 1e-12)), "inside the section but " + desc
+        if spec["expect"] == "outside":
+            return bool(outside and np.abs(f["J"][0]).max() > 0), "outside the section but " + desc
+        d = np.abs(f["B"] - magpylib.mu_0 * f["H"] - f["J"]).max()
+        return bool(np.all(np.isfinite(f["B"])) and d > 1e-9 * max(np.abs(f["B"]).max(), np.abs(f["J"]).max(), 1e-300)), f"|B-mu0H-J|={d:.3e} :: " + desc
     w = WRAPPERS[spec["wrapper"]]
     args = spec["args"]
     mu0 = magpylib.mu_0
